@@ -94,6 +94,15 @@ fn routes(xs: &[RV], t: &RV) -> Vec<(&'static str, Value)> {
     out.push(("cons-new-chain", acc));
     // 2 Value::append
     out.push(("Value::append", Value::append(xv.clone(), tv.clone())));
+    // 2b the same through iterators that do not know their length (size_hint lower bound 0)
+    out.push(("Value::append(lazy iterator)", Value::append(xv.clone().into_iter().filter(|_| true), tv.clone())));
+    {
+        let mut it = xv.clone().into_iter();
+        out.push(("Value::append(from_fn)", Value::append(std::iter::from_fn(move || it.next()), tv.clone())));
+    }
+    if *t == RV::Null {
+        out.push(("Value::list(lazy iterator)", Value::list(xv.clone().into_iter().filter(|_| true))));
+    }
     // 3 Value::list (only when t is Null) or Value::list + set_cdr on the last cell
     if *t == RV::Null {
         out.push(("Value::list", Value::list(xv.clone())));
